@@ -1,5 +1,6 @@
 import PharmpyModel.Core.Sexp
 import PharmpyModel.C13.Reader
+import PharmpyModel.C13.ModelLevel
 open Pharmpy Pharmpy.C13
 
 def bad : Sexp := .list [.atom "err", .atom "bad-op"]
@@ -39,8 +40,44 @@ def strs? (x : Sexp) : Option (List Str) := do
   let xs ← x.asList?
   xs.mapM (fun a => a.asAtom?.map String.toList)
 
+def inopt? : Sexp → Option InOpt
+  | .list [.atom k] => some ⟨k.toList, none⟩
+  | .list [.atom k, .atom v] => some ⟨k.toList, some v.toList⟩
+  | _ => none
+
+def filtS (f : Filt) : Sexp :=
+  let o := match f.op with
+    | .seq => "seq" | .sne => "sne" | .eq => "eq" | .ne => "ne"
+    | .lt => "lt" | .gt => "gt" | .le => "le" | .ge => "ge"
+  .list [strS f.col, .atom o, strS f.val]
+
+def pair? : Sexp → Option (Str × Str)
+  | .list [.atom a, .atom b] => some (a.toList, b.toList)
+  | _ => none
+
 def handle (req : Sexp) : Sexp :=
   match req with
+  | .list [.atom "mread", .atom text, .atom ic, opts, .atom null, .atom missing, mode, filters] =>
+    match ic.toList, opts.asList?.bind (·.mapM inopt?), mode.asNat?, filters.asList?.bind (·.mapM filt?) with
+    | [c], some opts, some mode, some fs =>
+      (match readModelDataset opts text.toList c null.toList missing.toList mode fs with
+       | .error e => rerrS e
+       | .ok m => .list [.atom "ok", Sexp.ofBool m.res.idInt, .list (m.names.map strS),
+                         .list (m.drop.map Sexp.ofBool),
+                         .list (m.res.rows.map (fun row => .list (row.map cellS)))])
+    | _, _, _, _ => bad
+  | .list [.atom "colinfo", opts] =>
+    match opts.asList?.bind (·.mapM inopt?) with
+    | some opts =>
+      (match parseColumnInfo opts 1 with
+       | none => .list [.atom "err", .atom "DatasetError:item"]
+       | some c => .list [.atom "ok", .list (c.names.map strS), .list (c.drop.map Sexp.ofBool),
+                          .list (c.repl.map (fun (r, s) => .list [strS r, strS s]))])
+    | none => bad
+  | .list [.atom "replsyn", repl, filters] =>
+    match repl.asList?.bind (·.mapM pair?), filters.asList?.bind (·.mapM filt?) with
+    | some repl, some fs => .list ((replaceSynonyms repl fs).map filtS)
+    | _, _ => bad
   | .list [.atom "read", .atom text, .atom ic, names, drops, .atom null, .atom missing, mode, filters] =>
     match ic.toList, strs? names, drops.asList?.bind (·.mapM Sexp.asBool?), mode.asNat?,
           filters.asList?.bind (·.mapM filt?) with
